@@ -442,7 +442,11 @@ PROPS["C01"] = {
              "WebRTC, Peers, staleness, redial) and the real server library in the harness process, a fake RFC 5780 STUN responder, a relay "
              "forwarder and a reverse proxy in front of the broker; generated: payloads {0, 1, 50 K, 300 K, 2 Mi, 6 Mi} both ways, 1-3 proxies, "
              "max 1-2 peers, first rendezvous answer lost/delayed, 0-3 timed faults out of {SIGKILL, SIGTERM, SIGSTOP d + SIGCONT of a proxy, "
-             "relay TCP cut / reset, broker answer lost / delayed, extra proxy}; a fresh proxy is always available in the end. Same byte-exact "
+             "relay TCP cut / reset / blackhole (silently stops forwarding), broker answer lost / delayed, extra proxy, SIGSTOP of the client binary for 2-12 s}, "
+             "optional first-rendezvous faults (answer lost/delayed, first relay connection blackholed, the carrying proxy SIGSTOPped before its first "
+             "downstream message); in half of the cases the client and server are the unmodified binaries too (SOCKS5 port to ORPort), in a third a "
+             "re-fragmenting WebSocket reverse proxy sits in front of the server; one case in ten is drawn from the scenario family 'downlink stall' "
+             "(multi-MiB download, all binaries, client stopped for 7-12 s); a fresh proxy is always available in the end. Same byte-exact "
              "oracle; a whole-system stall (150 s without progress) is re-run alone with 300 s, and reported only if it stalls again while a "
              "fault-free canary session completes (otherwise: inconclusive, environment). Non-trivial = at least "
              "one fault and >= 300 KB of payload."),
